@@ -347,9 +347,48 @@ Section RepC.
   Lemma lazy_clear_compact ts v : lazy_clear compact ts v = true -> compact = true.
   Proof. unfold lazy_clear. destruct compact; [reflexivity|discriminate]. Qed.
 
-  Lemma rep_clear clock lazy c : (lazy = true -> compact = true) -> RepC clock c -> RepC clock (clear_coll lazy c).
+  (* ---------- the two ways of removing a generation remove exactly its element keys ---------- *)
+  Lemma in_range_gen v (k : vkey) : in_range (BStart v) (BStop v) k = (fst k =? v).
+  Proof. unfold in_range, bound_le, lt_bound. lia. Qed.
+  (* the end key of the range is the STOP key: with the start key as end the range is empty *)
+  Lemma in_range_start_start v (k : vkey) : in_range (BStart v) (BStart v) k = false.
+  Proof. unfold in_range, bound_le, lt_bound. lia. Qed.
+
+  Theorem delete_range_exact v (es : list (vkey * V)) : delete_range (BStart v) (BStop v) es = drop_gen v es.
+  Proof. unfold delete_range, drop_gen. apply filter_ext. intros e. rewrite in_range_gen. reflexivity. Qed.
+  Theorem delete_range_to_start_deletes_nothing v (es : list (vkey * V)) : delete_range (BStart v) (BStart v) es = es.
   Proof.
-    intros LZ R. unfold clear_coll. destruct (c_meta c) as [m|] eqn:E; [|exact R].
+    unfold delete_range. rewrite <- (filter_true es) at 2. apply filter_ext. intros e. rewrite in_range_start_start. reflexivity.
+  Qed.
+  Theorem delete_each_exact v (es : list (vkey * V)) : NoDup (map fst es) -> delete_each (BStart v) (BStop v) es = drop_gen v es.
+  Proof.
+    intros ND. unfold delete_each, drop_gen.
+    rewrite (delete_each_filter vkey_eqb vkey_eqb_eq (in_range (BStart v) (BStop v)) es ND).
+    apply filter_ext. intros e. rewrite in_range_gen. reflexivity.
+  Qed.
+  (* every size takes exactly one of the two ways (hDeleteAll tests them independently) *)
+  Theorem clear_elems_tests_exact size v (es : list (vkey * V)) : NoDup (map fst es) -> clear_elems_tests size v es = drop_gen v es.
+  Proof.
+    intros ND. unfold clear_elems_tests. destruct (size <=? range_delete_num) eqn:A; destruct (range_delete_num <? size) eqn:B; try lia.
+    - apply delete_each_exact; exact ND.
+    - apply delete_range_exact.
+  Qed.
+  Theorem clear_elems_else_exact size v (es : list (vkey * V)) : NoDup (map fst es) -> clear_elems_else size v es = drop_gen v es.
+  Proof.
+    intros ND. unfold clear_elems_else. destruct (range_delete_num <? size); [apply delete_range_exact|apply delete_each_exact; exact ND].
+  Qed.
+
+  Lemma clear_coll_eq lazy tests (c : coll V) : NoDup (map fst (c_elems c)) ->
+    clear_coll lazy tests c =
+    match c_meta c return coll V with None => c | Some m => Build_coll None (if lazy then c_elems c else drop_gen (cm_ver m) (c_elems c)) end.
+  Proof.
+    intros ND. unfold clear_coll. destruct (c_meta c) as [m|]; [|reflexivity]. destruct lazy; [reflexivity|].
+    destruct tests; [rewrite clear_elems_tests_exact|rewrite clear_elems_else_exact]; auto.
+  Qed.
+
+  Lemma rep_clear clock lazy tests (c : coll V) : (lazy = true -> compact = true) -> RepC clock c -> RepC clock (clear_coll lazy tests c).
+  Proof.
+    intros LZ R. rewrite (clear_coll_eq lazy tests c (rc_nodup _ _ R)). destruct (c_meta c) as [m|] eqn:E; [|exact R].
     constructor; cbn [c_meta c_elems].
     - destruct lazy; [apply (rc_nodup _ _ R)|].
       unfold drop_gen. apply (nodup_kfilter (fun k : vkey => negb (fst k =? cm_ver m))), (rc_nodup _ _ R).
